@@ -15,12 +15,13 @@ use crate::exop::Exop;
 use crate::ldap::SaslCreds;
 use crate::protocol::MiscSender;
 use crate::protocol::{LdapOp, MaybeControls, ResultSender};
-use crate::search::parse_refs;
+use crate::search::try_parse_refs;
 use crate::search::ResultEntry;
 use crate::RequestId;
 
 use lber::common::TagClass;
 use lber::parse::parse_uint;
+use lber::structure::StructureTag;
 use lber::structures::Tag;
 use lber::universal::Types;
 
@@ -340,75 +341,80 @@ impl From<Tag> for LdapResultExt {
             }
             _ => unimplemented!(),
         };
-        let mut tags = t.expect_constructed().expect("result sequence").into_iter();
-        let rc = match parse_uint(
-            tags.next()
-                .expect("element")
-                .match_class(TagClass::Universal)
-                .and_then(|t| t.match_id(Types::Enumerated as u64))
-                .and_then(|t| t.expect_primitive())
-                .expect("result code")
-                .as_slice(),
-        ) {
-            Ok((_, rc)) => rc as u32,
-            _ => panic!("failed to parse result code"),
-        };
-        let matched = String::from_utf8(
-            tags.next()
-                .expect("element")
-                .expect_primitive()
-                .expect("octet string"),
-        )
-        .expect("matched dn");
-        let text = String::from_utf8(
-            tags.next()
-                .expect("element")
-                .expect_primitive()
-                .expect("octet string"),
-        )
-        .expect("diagnostic message");
-        let mut refs = Vec::new();
-        let mut exop_name = None;
-        let mut exop_val = None;
-        let mut sasl_creds = None;
-        loop {
-            match tags.next() {
-                None => break,
-                Some(comp) => match comp.id {
-                    3 => {
-                        refs.extend(parse_refs(comp));
-                    }
-                    7 => {
-                        sasl_creds = Some(comp.expect_primitive().expect("octet string"));
-                    }
-                    10 => {
-                        exop_name = Some(
-                            String::from_utf8(comp.expect_primitive().expect("octet string"))
-                                .expect("exop name"),
-                        );
-                    }
-                    11 => {
-                        exop_val = Some(comp.expect_primitive().expect("octet string"));
-                    }
-                    _ => (),
+        match parse_result_ext(t) {
+            Some(res) => res,
+            // A malformed LDAPResult must not panic the task doing the conversion, which
+            // may be the connection driver: report it as a protocol error instead.
+            None => LdapResultExt(
+                LdapResult {
+                    rc: 2,
+                    matched: String::from(""),
+                    text: String::from("malformed LDAPResult in server response"),
+                    refs: vec![],
+                    ctrls: vec![],
                 },
-            }
+                Exop {
+                    name: None,
+                    val: None,
+                },
+                SaslCreds(None),
+            ),
         }
-        LdapResultExt(
-            LdapResult {
-                rc,
-                matched,
-                text,
-                refs,
-                ctrls: vec![],
-            },
-            Exop {
-                name: exop_name,
-                val: exop_val,
-            },
-            SaslCreds(sasl_creds),
-        )
     }
+}
+
+fn parse_result_ext(t: StructureTag) -> Option<LdapResultExt> {
+    let mut tags = t.expect_constructed()?.into_iter();
+    let rc = match parse_uint(
+        tags.next()?
+            .match_class(TagClass::Universal)
+            .and_then(|t| t.match_id(Types::Enumerated as u64))
+            .and_then(|t| t.expect_primitive())?
+            .as_slice(),
+    ) {
+        Ok((_, rc)) => rc as u32,
+        _ => return None,
+    };
+    let matched = String::from_utf8(tags.next()?.expect_primitive()?).ok()?;
+    let text = String::from_utf8(tags.next()?.expect_primitive()?).ok()?;
+    let mut refs = Vec::new();
+    let mut exop_name = None;
+    let mut exop_val = None;
+    let mut sasl_creds = None;
+    loop {
+        match tags.next() {
+            None => break,
+            Some(comp) => match comp.id {
+                3 => {
+                    refs.extend(try_parse_refs(comp)?);
+                }
+                7 => {
+                    sasl_creds = Some(comp.expect_primitive()?);
+                }
+                10 => {
+                    exop_name = Some(String::from_utf8(comp.expect_primitive()?).ok()?);
+                }
+                11 => {
+                    exop_val = Some(comp.expect_primitive()?);
+                }
+                _ => (),
+            },
+        }
+    }
+    Some(LdapResultExt(
+        LdapResult {
+            rc,
+            matched,
+            text,
+            refs,
+            ctrls: vec![],
+        },
+        Exop {
+            name: exop_name,
+            val: exop_val,
+        },
+        SaslCreds(sasl_creds),
+    ))
 }
 
 /// Wrapper for results of a Search operation which returns all entries at once.
